@@ -56,7 +56,8 @@ pub open spec fn join_spec(ss: Seq<Seq<char>>, sep: Seq<char>) -> Seq<char>
 {
     if ss.len() == 0 { Seq::empty() } else if ss.len() == 1 { ss[0] } else { join_spec(ss.drop_last(), sep) + sep + ss.last() }
 }
-pub open spec fn str_views(s: Seq<String>) -> Seq<Seq<char>> { s.map_values(|x: String| x@) }
+pub open spec fn string_view() -> spec_fn(String) -> Seq<char> { |x: String| x@ }
+pub open spec fn str_views(s: Seq<String>) -> Seq<Seq<char>> { s.map_values(string_view()) }
 /// T17 (trusted std semantics): `s.iter().map(f).collect::<String>()` concatenates the results in order.
 /// Stated for every spec function g that describes f's results.
 #[verifier::external_body]
